@@ -40,14 +40,20 @@ WF_W = {
     'I1': ("all((t in self._components and e in self._components[t]) == "
            "(e in self._entities and t in self._entities[e]) for e in Ent for t in Type)", 'prop'),
     # no empty index set, no empty entity row (entities/entity_exists read dom(_entities))
-    'I2a': ("all(implies(t in self._components, nonempty(self._components[t])) for t in Type)",
-            'prop'),
+    # (an empty index set would be harmless for every query: not part of wf; stating
+    #  it together with I1 and I2b makes E-matching chase witnesses forever)
     'I2b': ("all(implies(e in self._entities, nonempty(self._entities[e])) for e in Ent)", 'prop'),
     # a component is stored under its exact type
     'I3': ("all(implies(e in self._entities and t in self._entities[e], "
            "typeof(self._entities[e][t]) == t and self._entities[e][t] != None) "
            "for e in Ent for t in Type)", 'prop'),
     'I4': ("not (None in self._entities) and not (None in self._components)", 'aux'),
+    # usage assumption carried as an invariant: a component instance is attached at
+    # most once (add_component/create_entity require it of their arguments)
+    'U1': ("all(implies(e in self._entities and t in self._entities[e] and "
+           "e2 in self._entities and t2 in self._entities[e2] and "
+           "self._entities[e][t] == self._entities[e2][t2], e == e2 and t == t2) "
+           "for e in Ent for t in Type for e2 in Ent for t2 in Type)", 'aux'),
 }
 
 WF_P = {
@@ -101,6 +107,17 @@ def declare(spec):
     for name, (text, role) in list(WF_W.items()) + list(WF_P.items()) + list(WF_R.items()):
         Wk.invariant(name, text, role)
     Wk.groups = {'W': list(WF_W), 'P': list(WF_P), 'R': list(WF_R)}
+    # class-level fact read from the real decorator on World (T4: a World subclass
+    # does not remap the relay event): @event_handler(on_single_dispatch='...')
+    import ast as _ast
+    m, cdef = spec.repo.klass('desper.logic.world.World')
+    for dec in cdef.decorator_list:
+        if isinstance(dec, _ast.Call) and getattr(dec.func, 'id', '') == 'event_handler':
+            for kw in dec.keywords:
+                if isinstance(kw.value, _ast.Constant):
+                    Wk.invariant('R3', "ev_has(typeof(self), '%s') and ev_get(typeof(self), '%s') == '%s'"
+                                 % (kw.arg, kw.arg, kw.value.value), 'aux')
+                    Wk.groups['R'].append('R3')
     spec.klass(None, 'Ent')
     spec.klass(None, 'IdGen')
     spec.klass(None, 'Factory')
@@ -291,6 +308,123 @@ def register(spec):
             '(t in old(self._components) and e in old(self._components)[t] and '
             'not (e == entity and t in old(self._entities)[entity] and pos(t) < i)) '
             'for e in Ent for t in Type)'),
-        'no-empty-index': 'all(implies(t in self._components, nonempty(self._components[t])) '
-                          'for t in Type)',
+        'no-new-index': 'all(implies(t in self._components, t in old(self._components)) for t in Type)',
     }, havoc=['self._components'])
+
+
+# row `entity` lost exactly (entity, S); everything else as before
+def att_minus(ent, typ):
+    return ("all((" + ATT + ") == (" + OLD_ATT + " and not (e == %s and t == %s)) and "
+            "implies(" + ATT + ", self._entities[e][t] == old(self._entities)[e][t]) "
+            "for e in Ent for t in Type)") % (ent, typ)
+
+
+def att_plus(ent, typ, comp):
+    return ("all((" + ATT + ") == (" + OLD_ATT + " or (e == %s and t == %s)) and "
+            "implies(" + ATT + ", self._entities[e][t] == "
+            "(%s if (e == %s and t == %s) else old(self._entities)[e][t])) "
+            "for e in Ent for t in Type)") % (ent, typ, comp, ent, typ)
+
+
+ATT_SAME = ("all((" + ATT + ") == (" + OLD_ATT + ") and implies(" + ATT + ", "
+            "self._entities[e][t] == old(self._entities)[e][t]) for e in Ent for t in Type)")
+
+
+def cb_call(comp, event, *args):
+    """The call record of `comp`'s callback for `event` with the given arguments."""
+    return ("call_cb(class_attr(typeof(%s), ev_get(typeof(%s), '%s')), %s, pack(%s), kw_empty())"
+            % (comp, comp, event, comp, ', '.join(args)))
+
+
+def lifecycle(comp, event, ent, cond):
+    """C02 clauses for one attach/detach of `comp` (condition `cond` = it happened)."""
+    c = cb_call(comp, event, ent, 'self')
+    relay = "qe('on_single_dispatch', pack('%s', %s, %s, self), kw_empty())" % (event, comp, ent)
+    has = "(has_events(typeof(%s)) and ev_has(typeof(%s), '%s'))" % (comp, comp, event)
+    return {
+        event + '-once-when-enabled': (
+            "implies(%s and %s and old(self._dispatch_enabled), cnt(%s) == old(cnt(%s)) + 1 and "
+            "all(implies(c != %s, cnt(c) == old(cnt(c))) for c in Call) and "
+            "self._event_queue == old(self._event_queue))" % (cond, has, c, c, c)),
+        event + '-postponed-not-lost': (
+            "implies(%s and %s and not old(self._dispatch_enabled), "
+            "all(cnt(c) == old(cnt(c)) for c in Call) and "
+            "len(self._event_queue) == len(old(self._event_queue)) + 1 and "
+            "is_prefix(old(self._event_queue), self._event_queue) and "
+            "self._event_queue[len(old(self._event_queue))] == %s)" % (cond, has, relay)),
+        event + '-nothing-otherwise': (
+            "implies(not (%s and %s), all(cnt(c) == old(cnt(c)) for c in Call) and "
+            "self._event_queue == old(self._event_queue))" % (cond, has)),
+    }
+
+
+DISP_STATE = ['self._events', 'self._handlers', 'self._event_queue', 'ghost:log', 'ghost:cnt']
+
+
+def register_mutators(spec):
+    C = spec.contract
+    wfall = ["wf(self)"]
+    P = dict(self=World)
+    MATCH = 'entity in old(self._entities) and U in old(self._entities)[entity]'
+    found = 'any(desc(component_type, U) and %s for U in Type)' % MATCH
+
+    ens = {
+        'wf': ("wf(self)", 'prop'),
+        'nothing-to-remove': 'implies(not %s, result == None and %s and '
+                             'self._components == old(self._components))' % (found, ATT_SAME),
+        'removes-one-matching': (
+            'implies(%s, desc(component_type, S) and entity in old(self._entities) and '
+            'S in old(self._entities)[entity] and result == old(self._entities)[entity][S] and %s)'
+            % (found, att_minus('entity', 'S'))),
+        'exact-type-preferred': (
+            'implies(entity in old(self._entities) and component_type in '
+            'old(self._entities)[entity], S == component_type)'),
+        'pending-mark-untouched': 'self._dead_entities == old(self._dead_entities)',
+        'processors-untouched': 'self._sorted_processors == old(self._sorted_processors) and '
+                                'self._processors == old(self._processors)',
+        'unregistered': 'implies(%s and has_events(typeof(result)), '
+                        'not (wref(result) in self._handlers))' % found,
+        'other-handlers-kept': 'all(implies(not (%s and r == wref(result)), '
+                               '(r in self._handlers) == (r in old(self._handlers))) for r in Ref)'
+                               % found,
+        'flag-untouched': 'self._dispatch_enabled == old(self._dispatch_enabled)',
+    }
+    ens.update(lifecycle('result', 'on_remove', 'entity', found))
+    C(W + 'remove_component', params=dict(P, entity=Ent, component_type=TypeS),
+      props=['C01', 'C02', 'C06'], requires=wfall + ['component_type != None'], returns=Comp,
+      modifies=['self._components', 'self._entities'] + DISP_STATE,
+      ghost_results={'S': ('local', 'subtype', TypeS)}, ensures=ens,
+      raises={'$OtherException': {'from-callback-only': found}})
+    walk_loop(spec, W + 'remove_component', 0, 'component_type',
+              'entity in self._entities and S in self._entities[entity]',
+              extra={
+                  'nothing-removed-yet': 'removed == None and unchanged_except(self, "")',
+                  'counters-untouched': 'all(cnt(c) == old(cnt(c)) for c in Call)',
+              })
+    spec.loops[(W + 'remove_component', 0)].vars['removed'] = Comp
+
+    ens = {
+        'wf': ("wf(self)", 'prop'),
+        'view': att_plus('entity', 'typeof(component)', 'component'),
+        'pending-mark-untouched': 'self._dead_entities == old(self._dead_entities)',
+        'processors-untouched': 'self._sorted_processors == old(self._sorted_processors) and '
+                                'self._processors == old(self._processors)',
+        'registered': 'implies(has_events(typeof(component)), wref(component) in self._handlers)',
+        'flag-untouched': 'self._dispatch_enabled == old(self._dispatch_enabled)',
+    }
+    C(W + 'add_component', params=dict(P, entity=Ent, component=Comp), props=['C01', 'C02'],
+      requires=wfall + ['component != None', 'entity != None', 'alive(component)',
+                        # the instance is not attached anywhere else
+                        'all(implies(e in self._entities and t in self._entities[e] and '
+                        'self._entities[e][t] == component, e == entity) '
+                        'for e in Ent for t in Type)'],
+      modifies=['self._components', 'self._entities'] + DISP_STATE,
+      ensures=ens, raises={'$OtherException': {'from-callback-only': 'True'}})
+
+
+_register0 = register
+
+
+def register(spec):     # noqa: F811
+    _register0(spec)
+    register_mutators(spec)
